@@ -7,7 +7,12 @@ A *tree* is a JSON-able dict::
 Domain restrictions enforced by construction (the property's quantifier):
   * every directory that holds files has an __init__.py (no PEP 420 namespace packages),
   * never a module file ``x.py`` next to a package directory ``x/`` in one directory,
-  * only ``.py`` files (no fake extension files: supp imports compiled modules),
+  * no fake extension files (supp imports compiled modules).  Non-source modules are REAL ones:
+    ``x.pyc`` = a sourceless module produced by py_compile from the text stored in the tree,
+    ``x.@so`` = a link to the interpreter's own extension module ``x`` (materialised with its real
+    suffix); both only as *shadowing decoys*: the check asks for names below them and for
+    completions after them, never analyses them,
+  * never two module files of the same stem in one directory,
   * at most MAX_FILES files per tree, packages nested to depth MAX_DEPTH.
 
 What the generator aims at: the same dotted name in different roots (module in one, package
@@ -15,8 +20,12 @@ in another, package in both with different children), deep nesting, and *decoy* 
 modules/packages named after real compiled or pure stdlib modules.
 All randomness comes from the ``random.Random`` passed in.
 """
+import importlib.machinery
 import itertools
 import os
+import py_compile
+import shutil
+import sys
 
 MAX_DEPTH = 4          # packages nested to depth 4 -> module names of up to 5 components
 MAX_FILES = 25
@@ -153,10 +162,11 @@ def _flatten(shape, prefix, files):
             _flatten(kind, rel, files)
 
 
-def gen_tree(rng):
-    """one tree: 1-3 roots, <= MAX_FILES files in total (bounded retries, then a fixed small tree)."""
+def gen_tree(rng, compiled=None):
+    """one tree: 1-3 roots, <= MAX_FILES files in total (bounded retries, then a fixed small tree).
+    ``compiled``: names of extension modules this interpreter really has (default: COMPILED)."""
     for _ in range(20):
-        tree = _gen_tree(rng)
+        tree = _gen_tree(rng, compiled)
         try:
             check_domain(tree)
         except AssertionError:
@@ -165,7 +175,7 @@ def gen_tree(rng):
     return {'roots': [{'pa/__init__.py': 'NAME = "pa"\n', 'pa/m.py': 'NAME = "pa.m"\n'}, {'pa.py': 'NAME = "pa"\n'}]}
 
 
-def _gen_tree(rng):
+def _gen_tree(rng, compiled=None):
     nroots = rng.choice((1, 2, 2, 2, 3, 3))
     deep = rng.random() < 0.5
     budget = MAX_FILES - 2
@@ -188,7 +198,61 @@ def _gen_tree(rng):
         files = {}
         _flatten(s, [], files)
         roots.append(files)
+    if rng.random() < 0.45:
+        for _ in range(rng.choice((1, 1, 2))):
+            _add_nonsource(rng, roots, compiled if compiled is not None else COMPILED)
     return {'roots': roots}
+
+
+def _top_names(files):
+    return {rel.split('/')[0].split('.')[0] for rel in files}
+
+
+def _add_nonsource(rng, roots, compiled):
+    """a sourceless .pyc module or a real extension module at the top level of one root, preferably
+    with a PACKAGE of the same name in another root (importlib: the first match is not a package, so
+    nothing below the name is importable when that root comes first)."""
+    use_so = bool(compiled) and rng.random() < 0.3
+    suffix = '.@so' if use_so else '.pyc'
+    i = rng.randrange(len(roots))
+    here = _top_names(roots[i])
+    others = [j for j in range(len(roots)) if j != i]
+    if use_so:
+        cands = [n for n in compiled if n not in here]
+        if not cands:
+            return
+        name = rng.choice(cands)
+    else:
+        # a package name of another root that this root does not have
+        pk = sorted({rel.split('/')[0] for j in others for rel in roots[j]
+                     if rel.count('/') == 1 and rel.endswith('/__init__.py')} - here)
+        if pk and rng.random() < 0.75:
+            name = rng.choice(pk)
+        else:
+            cands = [n for n in TOP_POOL + ['pq', 'bc'] if n not in here]
+            if not cands:
+                return
+            name = rng.choice(cands)
+    roots[i][name + suffix] = '' if use_so else 'NAME = %r\nsourceless = 1\n' % name
+    # make sure some other root has a package of that name (most of the time)
+    if others and rng.random() < 0.8:
+        j = rng.choice(others)
+        if name not in _top_names(roots[j]):
+            roots[j][name + '/__init__.py'] = 'NAME = %r\npkg_attr = 1\n' % name
+            roots[j][name + '/inner.py'] = 'NAME = %r\nattr_inner = 1\n' % (name + '.inner')
+            if rng.random() < 0.4:
+                roots[j][name + '/sub/__init__.py'] = 'NAME = %r\npkg_attr = 1\n' % (name + '.sub')
+                roots[j][name + '/sub/leaf.py'] = 'NAME = %r\nattr_leaf = 1\n' % (name + '.sub.leaf')
+    # occasionally also a sourceless module inside a package (a module-not-package prefix of another kind)
+    if not use_so and rng.random() < 0.25:
+        pkdirs = sorted({rel.rsplit('/', 1)[0] for rel in roots[i] if '/' in rel and rel.count('/') < MAX_DEPTH})
+        if pkdirs:
+            d = rng.choice(pkdirs)
+            stems = {rel[len(d) + 1:].split('/')[0].split('.')[0] for rel in roots[i] if rel.startswith(d + '/')}
+            cands = [n for n in SUB_POOL + ['bc'] if n not in stems]
+            if cands:
+                n = rng.choice(cands)
+                roots[i][d + '/' + n + '.pyc'] = 'NAME = %r\nsourceless = 1\n' % (d.replace('/', '.') + '.' + n)
 
 
 def check_domain(tree):
@@ -197,16 +261,31 @@ def check_domain(tree):
     for files in tree['roots']:
         total += len(files)
         dirs = set()
+        stems = set()
         for rel in files:
-            assert rel.endswith('.py') and not rel.startswith('/') and '..' not in rel, rel
+            assert rel.endswith(SUFFIXES) and not rel.startswith('/') and '..' not in rel, rel
             parts = rel.split('/')
             assert len(parts) <= MAX_DEPTH + 1, rel
             for i in range(1, len(parts)):
                 dirs.add('/'.join(parts[:i]))
+            stem = strip_suffix(rel)
+            assert stem not in stems, ('two module files of one stem', rel)
+            stems.add(stem)
+            assert rel.endswith('.py') or not stem.endswith('__init__'), rel
         for d in dirs:
             assert d + '/__init__.py' in files, ('namespace dir', d)
-            assert d + '.py' not in files, ('module next to package', d)
+            assert d not in stems, ('module next to package', d)
     assert 0 < total <= MAX_FILES, total
+
+
+SUFFIXES = ('.py', '.pyc', '.@so')
+
+
+def strip_suffix(rel):
+    for sfx in SUFFIXES:
+        if rel.endswith(sfx):
+            return rel[:-len(sfx)]
+    raise ValueError(rel)
 
 
 def orders(tree):
@@ -223,18 +302,46 @@ def write_tree(tree, base):
         for rel, text in sorted(files.items()):
             fn = os.path.join(rd, *rel.split('/'))
             os.makedirs(os.path.dirname(fn), exist_ok=True)
-            with open(fn, 'w') as f:
-                f.write(text)
+            if rel.endswith('.pyc'):
+                # a real sourceless module: compile the text, keep only the .pyc
+                src = os.path.join(base, '_pyc_src_%d.py' % len(dirs))
+                with open(src, 'w') as f:
+                    f.write(text)
+                py_compile.compile(src, cfile=fn, doraise=True)
+                os.unlink(src)
+            elif rel.endswith('.@so'):
+                # the interpreter's own extension module of that name, under its real suffix
+                name = os.path.basename(rel)[:-4]
+                spec = importlib.machinery.PathFinder.find_spec(name, list(sys.path))
+                if spec is None or not isinstance(spec.loader, importlib.machinery.ExtensionFileLoader):
+                    raise TreeNotWritable('no extension module %r in this interpreter' % name)
+                dest = os.path.join(os.path.dirname(fn), os.path.basename(spec.origin))
+                try:
+                    os.symlink(spec.origin, dest)
+                except OSError:
+                    shutil.copyfile(spec.origin, dest)
+            else:
+                with open(fn, 'w') as f:
+                    f.write(text)
         dirs.append(rd)
     return dirs
+
+
+class TreeNotWritable(Exception):
+    """the tree names something this interpreter does not have: the case is discarded, not reported"""
 
 
 # ---------------------------------------------------------------------------------------
 # names
 
 def dotted_of(rel):
-    """'pa/pb/m.py' -> ('pa.pb.m', 'module'); 'pa/pb/__init__.py' -> ('pa.pb', 'package')."""
-    parts = rel[:-3].split('/')
+    """'pa/pb/m.py' -> ('pa.pb.m', 'module'); 'pa/pb/__init__.py' -> ('pa.pb', 'package');
+    'x.pyc' -> ('x', 'sourceless'); 'x.@so' -> ('x', 'compiled-link')."""
+    parts = strip_suffix(rel).split('/')
+    if rel.endswith('.pyc'):
+        return '.'.join(parts), 'sourceless'
+    if rel.endswith('.@so'):
+        return '.'.join(parts), 'compiled-link'
     if parts[-1] == '__init__':
         return '.'.join(parts[:-1]), 'package'
     return '.'.join(parts), 'module'
@@ -290,7 +397,7 @@ def absolute_names(rng, tree, compiled, stdlib_pkgs, stdlib_mods):
     names = sorted(fb)
     for n in names:
         add('file-backed', n)
-    modules = [n for n in names if any(k == 'module' for _, _, k in fb[n])]
+    modules = [n for n in names if any(k in ('module', 'sourceless', 'compiled-link') for _, _, k in fb[n])]
     packages = [n for n in names if any(k == 'package' for _, _, k in fb[n])]
     leafs = sorted({n.rpartition('.')[2] for n in names})
     # prefixes that are modules, not packages (in at least one root)
